@@ -11,11 +11,11 @@ from . import base
 
 WORD = re.compile(r"^[A-Za-z][A-Za-z0-9_]*$")
 
-OPS_WS = ("W1", "W3", "WT", "W0", "NL", "NLI", "CE", "CD", "WFF", "WNB")
-OPS_ADJ = ("WI",)
+OPS_WS = ("W1", "W3", "WT", "W0", "NL", "NLI", "CE", "CD", "CDG", "WFF", "WNB")
+OPS_ADJ = ("WI", "CDI")
 OPS_BOUNDARY = ("CO", "CO0", "PPO", "PGO", "BL", "J", "CEE", "CEG")
-OPS_WORD = ("UP", "LO", "CAP")
-OPS_FILE = ("ALLUP", "ALLLO")
+OPS_WORD = ("UP", "LO", "CAP", "UPI")
+OPS_FILE = ("ALLUP", "ALLLO", "ALLJ")
 OPS_LINE = ("TW", "IND0", "IND3")
 ALL_OPS = OPS_WS + OPS_ADJ + OPS_BOUNDARY + OPS_WORD + OPS_FILE + OPS_LINE
 
@@ -36,6 +36,7 @@ class SeedInfo:
         self.ws = []  # (line, s, e)   same-line whitespace between two code tokens
         self.adj = []  # (line, col)   two adjacent code tokens, no whitespace
         self.words = []  # (line, s, e)
+        self.idents = []  # the words that are not keywords (by role class)
         self.bound = {}  # line i -> dict(join=bool, insert=bool)   boundary between line i and i+1 (0-based)
         self.ce_end = []  # lines that hold code and no comment: end-of-line comment may be added
         self.indent = []  # lines with code: (line, width of leading whitespace)
@@ -74,6 +75,8 @@ class SeedInfo:
                         self.ws.append((line, prev_code[2], s))
                 if WORD.match(v) and not base.is_exact_literal(tok):
                     self.words.append((line, s, e))
+                    if not type(tok).__name__.endswith("keyword"):
+                        self.idents.append((line, s, e))
                 prev_code = (line, s, e, tok)
                 between = []
             else:
@@ -124,6 +127,8 @@ class SeedInfo:
         for ln, c in self.adj:
             if "WI" in kinds and self._ok_line(ln, self.lines[ln][:c] + " " + self.lines[ln][c:]) and not self._inside_literal(ln, c):
                 out.append(("WI", ln, c))
+            if "CDI" in kinds and not self._inside_literal(ln, c) and self._ok_glued(ln, c, c):
+                out.append(("CDI", ln, c))
         for i in sorted(self.bound):
             b = self.bound[i]
             for k in ("CO", "CO0", "PPO", "PGO", "BL"):
@@ -154,11 +159,37 @@ class SeedInfo:
             for k, f in (("UP", str.upper), ("LO", str.lower), ("CAP", str.capitalize)):
                 if k in kinds and f(w) != w:
                     out.append((k, ln, s))
+        if "UPI" in kinds:
+            # one occurrence of an identifier that occurs at least twice gets another letter case than its other occurrences
+            # (a name used with a different case than its declaration)
+            kept = set(self.words)
+            cnt = {}
+            for ln, s, e in self.idents:
+                if (ln, s, e) in kept:
+                    cnt[self.lines[ln][s:e].lower()] = cnt.get(self.lines[ln][s:e].lower(), 0) + 1
+            for ln, s, e in self.idents:
+                w = self.lines[ln][s:e]
+                if (ln, s, e) in kept and cnt.get(w.lower(), 0) >= 2 and w.upper() != w:
+                    out.append(("UPI", ln, s))
         for k in OPS_FILE:
-            if k in kinds:
+            if k in kinds and (k != "ALLJ" or self._one_line() is not None):
                 out.append((k, 0, 0))
         out.sort(key=lambda o: (o[1], o[2], ALL_OPS.index(o[0])))
         return out
+
+    def _one_line(self):
+        """the whole design on one line (blank lines dropped, every line break replaced by a blank): only for files without
+        comments / pragmas / preprocessor lines, and only if the tokenizer sees the same code tokens"""
+        if any(a["comment"] or a["special"] or a["delim_open_at_end"] for a in self.info):
+            return None
+        parts = [l.strip(" \t") for l in self.lines if l.strip(" \t")]
+        if len(parts) < 2:
+            return None
+        joined = " ".join(parts)
+        want = []
+        for l in parts:
+            want += _nonblank(l)
+        return joined if _nonblank(joined) == want else None
 
     def _inside_literal(self, ln, c):
         """VSG's tokenizer splits abstract literals (20e-10, 16#FF#, 1.5) into several tokens: a space there is not a re-layout"""
@@ -181,6 +212,21 @@ class SeedInfo:
     def _ok_line(self, ln, new):
         return _nonblank(new) == _nonblank(self.lines[ln])
 
+    def _ok_glued(self, ln, s, e):
+        """a delimited comment glued to both neighbours (no blanks) in place of L[s:e]: admitted only if the tokenizer sees the
+        code tokens of the line unchanged around one /* ... */ group"""
+        L = self.lines[ln]
+        new = _nonblank(L[:s] + "/* c1 */" + L[e:])
+        if "/*" not in new:
+            return False
+        i = new.index("/*")
+        if "*/" not in new[i:]:
+            return False
+        j = new.index("*/", i)
+        if new[i + 1 : j] != ["c1"]:
+            return False
+        return new[:i] + new[j + 1 :] == _nonblank(L)
+
     def _ok_ws(self, k, ln, s, e):
         L = self.lines[ln]
         cur = L[s:e]
@@ -192,6 +238,8 @@ class SeedInfo:
             return cur != "\t"
         if k == "W0":
             return self._ok_line(ln, L[:s] + L[e:])
+        if k == "CDG":
+            return self._ok_glued(ln, s, e)
         if k == "WFF":
             return cur != "\x0c"
         if k == "WNB":
@@ -235,8 +283,12 @@ class SeedInfo:
                     lines[ln : ln + 1] = [L[:s] + f" -- {tag}", " " * s + L[e:]]
                 elif k == "CD":
                     lines[ln] = L[:s] + f" /* {tag} */ " + L[e:]
+                elif k == "CDG":
+                    lines[ln] = L[:s] + f"/* {tag} */" + L[e:]
             elif k == "WI":
                 lines[ln] = L[:c] + " " + L[c:]
+            elif k == "CDI":
+                lines[ln] = L[:c] + f"/* {tag} */" + L[c:]
             elif k == "CO":
                 lines[ln + 1 : ln + 1] = [f"  -- {tag}"]
             elif k == "CO0":
@@ -263,9 +315,12 @@ class SeedInfo:
                 e = c
                 while e < len(L) and (L[e].isalnum() or L[e] == "_"):
                     e += 1
-                f = {"UP": str.upper, "LO": str.lower, "CAP": str.capitalize}[k]
+                f = {"UP": str.upper, "LO": str.lower, "CAP": str.capitalize, "UPI": str.upper}[k]
                 lines[ln] = L[:c] + f(L[c:e]) + L[e:]
         for k, ln, c in ops:
+            if k == "ALLJ":
+                assert len(ops) == 1
+                return [self._one_line()]
             if k in OPS_FILE:
                 f = str.upper if k == "ALLUP" else str.lower
                 # case-flip exactly the word positions of the seed (positions are stable only when this is the sole op)
